@@ -142,6 +142,8 @@ func runC01(c *Ctx) {
 	tempCleanupAgeRule(c, "R12")
 	lfsStorageUnderCommonDir(c, "R13")
 	filterStatusReportsCommandError(c, "R14")
+	mergeResultOpenedAfterProgram(c, "R5")
+	smudgeCopiesWholeResult(c, "R9")
 	ctt := p.Fn("lfs", "(*GitFilter).copyToTemp")
 	cleanF := p.Fn("lfs", "(*GitFilter).Clean")
 	clean := p.Fn("commands", "clean")
